@@ -7,7 +7,11 @@ import (
 	"encoding/hex"
 	"fmt"
 	"math/rand"
+	"runtime"
+	"strings"
+	"sync"
 	"testing"
+	"time"
 
 	"verif/harness/internal/obs"
 	"verif/harness/internal/pbench"
@@ -31,9 +35,19 @@ type endpoint struct {
 	// drive runs the real code on a fresh service with the peer's bytes; the returned
 	// error is the handler / client error (fine). It must not leave goroutines that
 	// read further input.
-	drive func(b []byte) error
+	// Follow-up local calls are wrapped in step(name, f) so that a panic in one of them
+	// is recorded without hiding the others.
+	drive func(b []byte, step stepFn) error
 	// raw: include the raw framing-level inputs (class (a))
 	noRaw bool
+}
+
+// stepFn runs one follow-up call under its own recover.
+type stepFn func(name string, f func())
+
+type stepPanic struct {
+	step string
+	pi   *pbench.PanicInfo
 }
 
 func hexCap(b []byte) string {
@@ -64,17 +78,55 @@ func runEndpoint(t *testing.T, run *obs.Run, ep endpoint, nMut int) {
 		cl, b := pbench.Mutate(gen, ep.valid[gen.Intn(len(ep.valid))])
 		cases = append(cases, in{cl, b})
 	}
+	hangs := 0
 	for i, ic := range cases {
+		if hangs >= 2 {
+			// every hung call keeps a core spinning until the process ends
+			run.Stat("cases_skipped_after_two_hangs", 1)
+			continue
+		}
 		c := run.Begin(fmt.Sprintf("%s/%d", ep.name, i), map[string]interface{}{
 			"endpoint": ep.name, "class": ic.class, "len": len(ic.b), "input_hex": hexCap(ic.b)})
 		if c == nil {
 			continue
 		}
 		var err error
-		pi := pbench.Guard(func() { err = ep.drive(ic.b) })
+		var pi *pbench.PanicInfo
+		var subMu sync.Mutex
+		var subs []stepPanic
+		step := func(name string, f func()) {
+			if p := pbench.Guard(f); p != nil {
+				subMu.Lock()
+				subs = append(subs, stepPanic{name, p})
+				subMu.Unlock()
+			}
+		}
+		// the call runs in its own goroutine (under recover) so that an endless loop on
+		// hostile input cannot stall the run; the bound is far above any finite case
+		done := make(chan struct{})
+		go func() {
+			defer close(done)
+			b := ic.b
+			var e error
+			p := pbench.Guard(func() { e = ep.drive(b, step) })
+			err, pi = e, p
+		}()
+		hung := false
+		select {
+		case <-done:
+		case <-time.After(hangBound):
+			hung = true
+		}
 		pbench.Settle()
 		outcome := "ok"
 		switch {
+		case hung:
+			outcome = "hang"
+			hangs++
+			run.Stat("hangs", 1)
+			c.Viol("hang-"+ep.name,
+				fmt.Sprintf("%s did not return within %s on peer input (%s): endless loop", ep.name, hangBound, ic.class),
+				map[string]interface{}{"endpoint": ep.name, "class": ic.class, "input_hex": hexCap(ic.b), "stacks": repoStacks()})
 		case pi != nil && pi.Harness:
 			t.Fatalf("harness fault in %s case %d (%s): %s at %s\n%v", ep.name, i, ic.class, pi.Value, pi.Site, pi.Stack)
 		case pi != nil:
@@ -90,6 +142,19 @@ func runEndpoint(t *testing.T, run *obs.Run, ep endpoint, nMut int) {
 		default:
 			run.Stat("calls_returned_ok", 1)
 		}
+		subMu.Lock()
+		for _, sp := range subs {
+			if sp.pi.Harness {
+				t.Fatalf("harness fault in %s case %d step %s: %s at %s\n%v", ep.name, i, sp.step, sp.pi.Value, sp.pi.Site, sp.pi.Stack)
+			}
+			outcome = "panic"
+			run.Stat("panics_recovered", 1)
+			c.Viol("panic-"+ep.name+"-"+sp.pi.Site,
+				fmt.Sprintf("%s: follow-up %s panicked after peer input (%s): %s", ep.name, sp.step, ic.class, sp.pi.Value),
+				map[string]interface{}{"endpoint": ep.name, "class": ic.class, "step": sp.step, "input_hex": hexCap(ic.b),
+					"panic": sp.pi.Value, "site": sp.pi.Site, "stack": sp.pi.Stack})
+		}
+		subMu.Unlock()
 		run.Stat("cases/"+ep.name, 1)
 		run.Stat("cases_total", 1)
 		if i < 1 {
@@ -98,6 +163,34 @@ func runEndpoint(t *testing.T, run *obs.Run, ep endpoint, nMut int) {
 		c.End(ep.name+"|"+ic.class+"|"+outcome, true)
 	}
 	run.Stat("endpoints", 1)
+}
+
+// hangBound is the liveness bound of one case (not an oracle of timing: every finite
+// case of this bench takes milliseconds to a few seconds).
+const hangBound = 25 * time.Second
+
+// repoStacks lists the running goroutines that are inside repository code (for the
+// witness of a hang).
+func repoStacks() []string {
+	buf := make([]byte, 4<<20)
+	buf = buf[:runtime.Stack(buf, true)]
+	var out []string
+	for _, g := range strings.Split(string(buf), "\n\n") {
+		if !strings.Contains(g, "[running]") && !strings.Contains(g, "[runnable]") {
+			continue
+		}
+		if !strings.Contains(g, "gauss-project/aurorafs/pkg/") {
+			continue
+		}
+		if len(g) > 1500 {
+			g = g[:1500]
+		}
+		out = append(out, g)
+		if len(out) >= 3 {
+			break
+		}
+	}
+	return out
 }
 
 func rnd(rng *rand.Rand, n int) []byte {
